@@ -50,6 +50,16 @@ func craftedShapes() []crafted {
 				{Kind: "index", Edges: []vh.Edge{e("manifest", 3), e("manifest", 6)}}},
 			Ext: []int{3, 1, 4},
 		},
+		{ // an index that lists an image and the image's referrer, which has a referrer of its own: while the ancestors
+			// of the image are searched, the referrer is reached with one of its predecessors (the index) already visited
+			Name: "refindex",
+			Nodes: []vh.NodeSpec{{}, blob, blob,
+				{Kind: "manifest", Edges: []vh.Edge{e("config", 1), e("layer", 2)}},
+				{Kind: "manifest", Art: "application/vnd.verif.sbom", Edges: []vh.Edge{e("subject", 3), e("config", 1)}},
+				{Kind: "manifest", Art: "application/vnd.verif.sig", Edges: []vh.Edge{e("subject", 4), e("config", 1)}},
+				{Kind: "index", Edges: []vh.Edge{e("manifest", 3), e("manifest", 4)}}},
+			Ext: []int{3, 1, 2},
+		},
 		{ // nested indexes with a blob listed twice and a shared config
 			Name: "nested",
 			Nodes: []vh.NodeSpec{{}, blob, blob,
